@@ -14,10 +14,17 @@ TRUSTED = SR.TRUSTED
 PARTIAL = ('proved (Properties/C08.v, all closed under the global context): C08_tdvp1_conserves -- for every L >= 1, every number of steps and every bond profile the state '
            'returned by the single-site model has norm one and the energy of the normalised input, and the return value is the nrm of the initial '
            'right-orthonormalisation; relative to the contracts of the oracle calls the run issues, read off the emitted trace (block QR: Q.R = M, Q^H Q = I, '
-           '1 <= k <= n; local solvers preserve <x|x> and <x|H_eff x>; orthonormalize returns right-isometric tensors). Also the mixed-canonical norm / '
-           'one-site / two-site / zero-site (rectangular bond matrix) energy identities, the call schedule for all L and step counts, the per-call QR bond bound. '
-           'NOT proved: the two-site integrator along a whole run (per local step only; the SVD-split contract and its induction are not mechanised), bond '
-           'dimensions along a whole run, that floating-point Lanczos meets the conservation contract (measured), rounding drift (measured by prop()); '
+           '1 <= k <= n; local solvers preserve <x|x> and <x|H_eff x>; orthonormalize returns right-isometric tensors). C08_tdvp2_conserves -- the same three '
+           'conclusions for the two-site model, every L >= 2, every number of steps and every bond profile, relative to the contracts of the calls the run issues '
+           '(one-site and merged two-site local solver preserve <x|x> and <x|H_eff x>; every split_mps_tensor call is exact, tol = 0: the tensor that was split '
+           'factors entrywise through the two answers and the factor that did not receive the singular values is an isometry -- \'right\': A[i] left-isometric, '
+           '\'left\': A[i+1] right-isometric; orthonormalize returns right-isometric tensors); induction over the two-site schedule with the two-site mixed-canonical '
+           'invariant, hand-over of the centre after a \'right\' split and through the backward one-site step. Also the mixed-canonical norm / '
+           'one-site / two-site / zero-site (rectangular bond matrix) energy identities, the call schedule for all L and step counts, the per-call QR bond bound; '
+           'non-vacuity of both whole-run theorems on rational instances (L = 2 single-site, L = 3 two-site with an exact rational split oracle). '
+           'NOT proved: bond dimensions along a whole run, splits with tol > 0, that floating-point Lanczos meets the conservation contract (measured), that the floating-point '
+           'SVD split meets the exact-split contract (at tol = 0 this is what C03_merge_split_id and C12_block_svd_spec prove of the split model in exact arithmetic; '
+           'here only its consequences, norm and energy drift, are measured), rounding drift (measured by prop()); '
            'Hermiticity of H and imaginary dt enter only through the solver contract; H is an argument no model function returns or updates (bytes compared here)')
 ASSUMPTIONS = SR.ASSUMPTIONS
 RULE = ('Hermitian MPOs (XXZ, Ising, Bose-Hubbard, Fermi-Hubbard, random Hermitian with and without charges), L in 1..5 (two-site: L >= 2), '
